@@ -65,6 +65,12 @@ def op_table(D: int) -> Dict[str, Tuple[Callable, Callable]]:
         "torch_narrow_0_0_2": (lambda x, e: torch.narrow(x, 0, 0, 2), ident),
         "index_select_201": (lambda x, e: torch.index_select(x, 0, torch.tensor([2, 0, 1])), ident),
         "index_select_11": (lambda x, e: x.index_select(0, torch.tensor([1, 1])), ident),
+        "slice_0_0": (lambda x, e: x[0:0], ident),
+        "slice_from_end": (lambda x, e: x[x.shape[0]:], ident),
+        "list_empty": (lambda x, e: x[[]], ident),
+        "bool_mask_000": (lambda x, e: x[torch.zeros(x.shape[0], dtype=torch.bool)], ident),
+        "narrow_0_1_0": (lambda x, e: x.narrow(0, 1, 0), ident),
+        "cat_empty_front": (lambda x, e: torch.cat([x[:0], x]), ident),
         "chunk2_0": (lambda x, e: x.chunk(2)[0], ident),
         "chunk2_1": (lambda x, e: x.chunk(2)[1], ident),
         "split2_0": (lambda x, e: x.split(2)[0], ident),
@@ -283,6 +289,8 @@ def run_program(ctx: Ctx, init: Dict[str, Any], prog: List[str], allowed: Dict[s
             raise MachineryError(f"specification enables {name} after {prog[:k]} on {init['t']} but torch rejects it: {ex}")
         chain.append(sc)
         p = project(r, chain)
+        if trail and json.loads(trail[-1])["t"] != "Plain" and not json.loads(trail[-1])["d"]:
+            return  # the specification does not continue programs on an empty typed batch
         trail.append(norm(p))
         if record is not None:
             record.append(dict(ev="op", op=name, val=p))
@@ -321,6 +329,23 @@ def check_collate(ctx: Ctx, c: Dict[str, Any]) -> None:
     if norm(p) != norm(c["out"]):
         ctx.violation(dict(**sig, aligned=(p["d"] == p["g"]), ngrids_ok=(p["nG"] == len(p["d"]))),
                       f"collate_samples of {c['t']} parts {c['parts']} returned {p}, expected {c['out']}", c)
+    # samples whose flow fields use DIFFERENT vector representations cannot become one batch (a batch has one): the collation has to refuse,
+    # or hand back something that is not a flow-field batch labelled with one of them
+    if c["t"] in ("FlowField", "FlowFields") and len(c["parts"]) >= 2:
+        others = [a for a in ("world", "grid", "cube", "cube_corners") if a != c["axes"]]
+        for pos in (1, len(c["parts"]) - 1, 0):
+            mixed = []
+            for j, part in enumerate(c["parts"]):
+                ini = dict(init, axes=others[(j + pos) % len(others)] if j == pos else c["axes"])
+                mixed.append({"img": make_value(ini, part), "name": "s"})
+            try:
+                out = collate_samples(mixed)["img"]
+            except Exception:
+                continue
+            if hasattr(out, "axes") and hasattr(out, "grids"):
+                ctx.violation(dict(op="collate_samples", init=c["t"], what="mixed_axes", pos=pos),
+                              f"collate_samples of {c['t']} samples with different axes ({[m['img'].axes().value for m in mixed]}) returned one {type(out).__name__} labelled {out.axes().value}", c)
+                break
     ctx.count(key=("collate", json.dumps(c, sort_keys=True)))
 
 
@@ -401,7 +426,7 @@ def run(ctx: Ctx) -> None:
         chain = []
         for _step in range(rng.randint(2, 6)):
             p0 = project(x, chain)
-            if p0["t"] == "Plain":
+            if p0["t"] == "Plain" or not p0["d"]:
                 break
             lay = "NCS" if p0["t"] in ("ImageBatch", "FlowFields") else "CS"
             name = rng.choice(batch_ops if lay == "NCS" else single_ops)
